@@ -4,6 +4,7 @@ import (
 	"bytes"
 	"fmt"
 	"io"
+	"strings"
 	"testing"
 
 	"github.com/parquet-go/parquet-go"
@@ -207,6 +208,9 @@ func runRepCase(c RepCase, o *kit.Obs) *kit.Failure {
 		}
 	}()
 	o.Class("entry-" + c.Entry)
+	if rerr != nil && strings.HasPrefix(rerr.Error(), "panic: ") {
+		return kit.Failf("c12/repetition/panic"+feat, "%v", rerr)
+	}
 	if rerr != nil {
 		o.Class("rejected")
 		return nil // rejected: fine (also for the lossless cases: rejecting a change of repetition is allowed)
